@@ -258,6 +258,15 @@ class Rig:
         wpilib.simulation.stepTiming(hold)
         return self.read(key, v, env)
 
+    def read_step(self, key, v1, v2, env=NOMINAL, dt=0.02):
+        """the voltage steps: read at v1, one control-loop period of FPGA time passes, read at v2 -> the second outcome"""
+        import hal.simulation
+        import wpilib.simulation
+        self.read(key, v1, env)
+        hal.simulation.pauseTiming()
+        wpilib.simulation.stepTiming(dt)
+        return self.read(key, v2, env)
+
     def set(self, key, d, env=NOMINAL):
         """helper.setDistance(d), the roboRIO in state env ->
         (outcome of the call, helper.getDistance(), voltage, reading)"""
@@ -1300,6 +1309,23 @@ def search_violations(ctx, state):
                         viol["mode"] = "voltage-held"
                         found.append((order[bad[0]], viol))
                         break
+        # the voltage steps between two readings that are one loop period (20 ms of FPGA time) apart
+        if not per:
+            sv = special_voltages(S) + [code_volts(c) for c in range(64, NCODES, 256)]
+            hit = False
+            for v1 in (code_volts(1640), code_volts(490), sv[0], sv[-1]):
+                for v2 in sv:
+                    o = rig.read_step(K, v1, v2)[1]
+                    bad = oracle_voltage(S, v2, o)
+                    if bad:
+                        viol = v_violation(S, v2, o, bad[0], bad[1] + " (read 20 ms of FPGA time after a reading at %r V)" % v1)
+                        viol["mode"] = "voltage-step"
+                        viol["prev_voltage_hex"] = fhex(v1)
+                        found.append((order[bad[0]], viol))
+                        hit = True
+                        break
+                if hit:
+                    break
         # monotone: within one state of the roboRIO (ADC codes first)
         for env in sorted(pairs, key=erank):
             m = oracle_monotone([p for p in pairs[env] if _is_code(p[0])]) or oracle_monotone(pairs[env])
@@ -1378,6 +1404,11 @@ def replay(ctx, obj):
         seen, o = (rig.read_fresh if obj["mode"] == "voltage-fresh" else rig.read_held)(K, v, env)
         print("%s (%s): AnalogInputSim.setVoltage(%r); getDistance() -> %r" % (
             S["cls"], "a driver object that was just created" if obj["mode"] == "voltage-fresh" else "read again after 1.5 s of FPGA time", v, o))
+        bad = oracle_voltage(S, v, o)
+    elif obj["mode"] == "voltage-step":
+        v1, v = unhex(obj["prev_voltage_hex"]), unhex(obj["voltage_hex"])
+        seen, o = rig.read_step(K, v1, v, env)
+        print("%s: getDistance() at %r V; 20 ms of FPGA time later setVoltage(%r); getDistance() -> %r" % (S["cls"], v1, v, o))
         bad = oracle_voltage(S, v, o)
     elif obj["mode"] == "voltage-pair":
         v1, v2 = [unhex(h) for h in obj["voltages_hex"]]
